@@ -10,11 +10,11 @@ import shutil
 from .. import build, tlc, judge
 from ..core import MachineryError
 
-ATTRS = ["c_int", "l_plain", "l_init", "d_plain", "s_plain", "a_list", "a_dict", "f_call", "m_dyn", "m_list", "t_cont",
+ATTRS = ["c_int", "l_plain", "l_init", "d_plain", "s_plain", "a_list", "a_lsub", "a_dict", "f_call", "m_dyn", "m_list", "t_cont",
          "u_cont", "o_int", "n_int", "mp", "arr", "pf"]
 SCALARS = ["c_int", "o_int", "m_dyn", "n_int", "mp", "pf"]
 HANDLED = ["c_int", "o_int", "m_dyn", "n_int"]
-MUTABLE = ["l_plain", "l_init", "d_plain", "s_plain", "a_list", "a_dict", "f_call", "m_list", "t_cont", "u_cont", "arr"]
+MUTABLE = ["l_plain", "l_init", "d_plain", "s_plain", "a_list", "a_lsub", "a_dict", "f_call", "m_list", "t_cont", "u_cont", "arr"]
 DYNAMIC = ["m_dyn", "m_list", "pf"]
 MPCODE = {"a": 1, "b": 2}
 NINST = 3
